@@ -1,0 +1,11 @@
+//go:build verif
+
+package ovmf
+
+import "github.com/google/gce-tcb-verifier/ovmf/abi"
+
+// VerifC08SevSections exposes the SEV-SNP metadata sections exactly as ExtractFromFirmware stored
+// them (before validateSections), for the verification harness.
+func (d *SevData) VerifC08SevSections() []abi.SevMetadataSection {
+	return d.snpMetadataSections
+}
